@@ -54,7 +54,8 @@ type Step struct {
 type Opts struct {
 	RecvUnblocks bool `json:"recvUnblocks"`
 	Callback     bool `json:"callback"`
-	CbAware      bool `json:"cbaware"` // callback handlers watch their context: they return when it ends, released or not
+	HookTouch    bool `json:"hooktouch"` // the OnStop hook uses the client it is given (IsStopped, Notify)
+	CbAware      bool `json:"cbaware"`   // callback handlers watch their context: they return when it ends, released or not
 	Free         bool `json:"free"`
 }
 
@@ -531,6 +532,9 @@ func Run(t *testing.T, sc *Scenario, emit func(evs []vh.Event, stats map[string]
 		rec := &vh.Recorder{}
 		s := vh.NewSched(sc.Seed)
 		s.Free = sc.Opts.Free
+		if sc.Opts.HookTouch {
+			s.UseExt = true // a hook that cannot get the client's lock waits for a mutex: that must not stall the scenario
+		}
 		s.Pass["cli.close.lock"] = true
 		r := &runner{t: t, sc: sc, rec: rec, sched: s, stats: stats, opGid: map[string]int64{}, opCtx: map[string]context.CancelFunc{},
 			opDl: map[string]time.Time{}, cbGate: map[string][]chan struct{}{}, cbOut: map[string]string{}, closeCh: make(chan struct{})}
@@ -543,7 +547,15 @@ func Run(t *testing.T, sc *Scenario, emit func(evs []vh.Event, stats map[string]
 		opts := &jrpc2.ClientOptions{
 			OnNotify: func(req *jrpc2.Request) { rec.Log("OnNotify", "m", req.Method()) },
 			OnCancel: func(cli *jrpc2.Client, rsp *jrpc2.Response) { rec.Log("OnCancel", "id", rsp.ID()) },
-			OnStop:   func(cli *jrpc2.Client, err error) { rec.Log("OnStop", "cause", stopCause(err)) },
+			OnStop: func(cli *jrpc2.Client, err error) {
+				rec.Log("OnStop", "cause", stopCause(err))
+				if sc.Opts.HookTouch {
+					// a hook that looks at its client: the client is stopped by then, and says so at once
+					st := cli.IsStopped()
+					nerr := cli.Notify(context.Background(), "after-stop", nil)
+					rec.Log("HookSaw", "stopped", st, "refused", nerr != nil)
+				}
+			},
 		}
 		if sc.Opts.Callback {
 			opts.OnCallback = func(ctx context.Context, req *jrpc2.Request) (any, error) {
